@@ -292,6 +292,7 @@ func (e *Engine) callFunction(s *State, x ssa.CallInstruction, fn *ssa.Function,
 		e.pushFrame(s, x, fn, args, bindings)
 		return nil, true
 	}
+	e.externArgWrites(s, x, fn, args)
 	e.assumed["unmodelled external "+e.shortFunc(fn)+": result havocked, no heap effect assumed"] = true
 	res := e.havocResult(s, x, fn.Name())
 	e.bindResult(s, x, res)
@@ -561,3 +562,69 @@ var rePathPrefix = regexp.MustCompile(`([A-Za-z0-9_.\-]+/)+`)
 
 // shortPaths drops import-path prefixes: "(*github.com/spf13/cobra.Command).Execute" -> "(*cobra.Command).Execute".
 func shortPaths(s string) string { return rePathPrefix.ReplaceAllString(s, "") }
+
+// mutatingExternals: library functions known to write through a slice argument (element order / values).
+var mutatingExternals = map[string]bool{
+	"sort.Slice": true, "sort.SliceStable": true, "sort.Sort": true, "sort.Stable": true, "sort.Strings": true, "sort.Ints": true, "sort.Float64s": true,
+	"slices.Sort": true, "slices.SortFunc": true, "slices.SortStableFunc": true, "slices.Reverse": true, "math/rand.Shuffle": true,
+}
+
+// externArgWrites: in a function that may write only its own fresh objects (FRAME), an external that
+// is known to mutate its slice argument - or, in the generators, any external without a contract that
+// receives a slice / map / pointer to a repository type - must be handed fresh memory only.
+func (e *Engine) externArgWrites(s *State, x ssa.CallInstruction, fn *ssa.Function, args []Value) {
+	if !e.cfg.CheckFrame || !e.curFramed {
+		return
+	}
+	name := fn.String()
+	known := mutatingExternals[name]
+	if !known && !e.curPhaseB {
+		return
+	}
+	for i, p := range fn.Params {
+		if i >= len(args) {
+			break
+		}
+		var ref *Term
+		what := ""
+		switch u := p.Type().Underlying().(type) {
+		case *types.Slice:
+			ref, what = args[i][0], "slice"
+			_ = u
+		case *types.Map:
+			if !known {
+				ref, what = args[i][0], "map"
+			}
+		case *types.Pointer:
+			if !known && e.isRepoPtr(p.Type()) {
+				ref, what = args[i][0], "pointer"
+			}
+		case *types.Interface:
+			// sort.Slice takes the slice as interface{}: the payload is the slice header box; its array is
+			// not visible here, so a mutating external with an interface argument is treated conservatively
+			if known {
+				ref, what = nil, "interface"
+			}
+		}
+		if what == "" {
+			continue
+		}
+		oname := e.siteName("FRAME", x, "extern-arg")
+		if ch := s.top().chain; ch != "" {
+			oname = ch + "/" + oname
+		}
+		goal := False
+		if ref != nil {
+			goal = Or(freshCond(ref), Eq(ref, Zero))
+		} else if i < len(x.Common().Args) {
+			// interface argument made from a slice value: look through the MakeInterface
+			if mi, ok := x.Common().Args[i].(*ssa.MakeInterface); ok {
+				if _, isSlice := mi.X.Type().Underlying().(*types.Slice); isSlice {
+					v := e.get(s, mi.X)
+					goal = Or(freshCond(v[0]), Eq(v[0], Zero))
+				}
+			}
+		}
+		e.oblige(s, "FRAME", oname, fmt.Sprintf("%s may write through its %s argument: it must be handed memory allocated by this activation", e.shortFunc(fn), what), x.Pos(), goal)
+	}
+}
